@@ -18,7 +18,6 @@
    TLC computes denotations and ancestry itself and decides the clauses.       *)
 EXTENDS GraphManip, TraceIO
 
-AsGraph(q) == [k \in { q[i].k : i \in DOMAIN q } |-> (CHOOSE i \in DOMAIN q : q[i].k = k) ]
 ExprOf(q, k) == q[CHOOSE i \in DOMAIN q : q[i].k = k].e
 Graph(q) == [k \in { q[i].k : i \in DOMAIN q } |-> ExprOf(q, k)]
 
